@@ -10,7 +10,7 @@ ATTACH_MOD = {
     "virtiofs": "transport::virtiofs", "server": "api::server", "srvsync": "api::server::sync_io",
     "vfs": "api::vfs", "pseudo": "api::pseudo_fs", "pt": "passthrough", "ptsync": "passthrough::sync_io",
     "filebuf": "common::file_buf", "abi": "abi::fuse_abi", "fsmod": "api::filesystem",
-    "vfssync": "api::vfs::sync_io",
+    "vfssync": "api::vfs::sync_io", "srvasync": "api::server::async_io",
 }
 
 H = []
@@ -306,3 +306,36 @@ reg(PTP, "c16_skip_to_cookie_chain", ["C16"], flavour="real", timeout=900, unwin
     functions=["PassthroughFs::skip_to_cookie"], assumptions=["getdents64 buffers come from the host kernel: record lengths are well-formed"], role="c16_skip")
 # c16_cookie_cache_step / c16_cache_cookie_records_last (HandleMap's HashMap<Handle,u64>) exist in the
 # harness file but are NOT registered: hashbrown insert/remove did not finish in 900 s (see DESIGN.md).
+
+
+# ============================================================================ transport IoBuffers (real overlay): C04 / C17
+IOB = "harness/real/transport__iobuf.rs"
+IOB_FUNCS = ["transport::IoBuffers::{consume, consume_for_read, allocate_file_volatile_slice, mark_used, mark_dirty, available_bytes, bytes_consumed, split_at}",
+             "FileVolatileSlice::from_volatile_slice", "VolatileSlice::{subslice, offset}"]
+for fn, q in [("c04_consume_8_8", True), ("c04_consume_1_8", True), ("c04_consume_8_1", False), ("c04_consume_0_8", True), ("c04_consume_8_0", False)]:
+    reg(IOB, fn, ["C04"], flavour="real", tier="quick" if q else "thorough", timeout=900, mem=16,
+        what="IoBuffers consume geometry/accounting on two segments (%s)" % fn[12:], bounds="segment lengths concrete; count, consumed k and consumer failure symbolic",
+        functions=IOB_FUNCS, stubs=[STUB_FMT], role=fn)
+for fn, q in [("c04_split_8_8_at0", True), ("c04_split_8_8_at3", False), ("c04_split_8_8_at8", True), ("c04_split_8_8_at11", False), ("c04_split_8_8_at16", False),
+              ("c04_split_8_8_at17", True), ("c04_split_1_8_at1", False)]:
+    reg(IOB, fn, ["C04"], flavour="real", tier="quick" if q else "thorough", timeout=900, mem=24,
+        what="IoBuffers::split_at at a concrete offset", bounds="two 8-byte segments (or 1+8); offset concrete per instance", functions=IOB_FUNCS, stubs=[STUB_FMT], role=fn)
+for fn, q in [("c17_dirty_write_8_8", True), ("c17_dirty_write_3_8", True), ("c17_dirty_read_8_8", True), ("c17_dirty_split_at3", False), ("c17_dirty_split_at8", True), ("c17_dirty_split_at11", False)]:
+    reg(IOB, fn, ["C17"], flavour="real", tier="quick" if q else "thorough", timeout=900, mem=24,
+        what="dirty marking of IoBuffers::consume with a recording BitmapSlice", bounds="two segments with distinct bitmap bases; count, written k, failure and the probed guest byte symbolic",
+        functions=IOB_FUNCS + ["vm_memory::Bitmap::mark_dirty via VolatileSlice::bitmap()"], stubs=[STUB_FMT, "RecBitmap: harness BitmapSlice that records mark_dirty(offset,len) relative to a base"], role=fn)
+
+
+# ============================================================================ C20 sync vs async (model overlay, feature async-io)
+C20F = "harness/model/srvasync__c20.rs"
+C20_QUICK = {"forget_oversize", "getattr_ok", "getattr_err", "unlink_ok", "forget_ok"}
+for v in ["getattr_ok", "getattr_err", "setattr_ok", "lookup_ok", "open_ok", "fsync_err", "fallocate_ok", "write_ok", "read_ok", "unlink_ok", "release_err",
+          "forget_oversize", "forget_ok", "getattr_oversize", "getattr_tiny_reply_buffer", "unknown_opcode"]:
+    reg(C20F, "c20::" + v, ["C20"], tier="quick" if v in C20_QUICK else "thorough", flavour="model-async", timeout=1500, timeout_thorough=2400, mem=20,
+        features=["fusedev", "async-io"], support=MSUP, cost=6,
+        what="handle_message vs block_on(async_handle_message) on the same request: " + v,
+        bounds="opcode concrete; header fields and request-structure bytes symbolic; answer: success or symbolic errno; in_header.len exact or oversize; reply buffer 160 (8 for the tiny instance)",
+        functions=["Server::handle_message", "Server::async_handle_message", "async handlers (lookup/getattr/setattr/open/create/read/write/fsync/fsyncdir/fallocate)",
+                   "async_reply_ok / async_do_reply_error", "model FuseDevWriter async_* (mirrors src/transport/fusedev mod async_io)"],
+        stubs=SRV_STUBS + ["kani::block_on drives the future (the fusedev async writer completes synchronously)", "AsyncFileSystem twin of SymFs delegating to the same script/log"],
+        role="c20:" + v)
